@@ -1,6 +1,7 @@
 """gen_c10 - workload generators for property C10.
 
-Part A (policy): language-less projects around ONE dependency name `foo`; every provider carries a
+Part A (policy): language-less projects around ONE dependency name per world (`foo`, a spelling with upper-case
+characters, or a name meson serves through several detection methods - see DEP_NAMES); every provider carries a
 distinct version string so that the printed answer names its source:
 
     system (foo.pc in a private PKG_CONFIG_LIBDIR)      1.0 / 2.0
@@ -32,6 +33,62 @@ VAR = 'foo_dep'
 SYSTEM_VERSIONS = ('1.0', '2.0', 'unknown')   # 'unknown': foo.pc with an empty Version: field
 SUB_VERSIONS = {'lo': '1.1', 'hi': '2.1'}
 OVR_VERSIONS = {'lo': '1.2', 'hi': '2.2'}
+
+# The NAME of the dependency is a factor of every world (world['dep'], default DEP).  The policy is stated for "a
+# dependency": it does not depend on how the name is spelled nor on which detection machinery serves the name.
+#   plain    a name only pkg-config knows
+#   case     spellings with upper-case characters; the SAME spelling is used everywhere (the .pc file, dependency(),
+#            meson.override_dependency(), [provide] of the wrap file, force_fallback_for) - Wrap-dependency-system-
+#            manual.md: "When a wrap file provides the dependency `foo-1.0` ... any call to `dependency('foo-1.0')`
+#            will automatically fallback to that subproject"; two DIFFERENT spellings are never mixed (the documents
+#            do not say whether names are case-sensitive)
+#   factory  names meson serves with several detection methods, pkg-config among them (Dependencies.md "Dependencies
+#            with custom lookup functionality"); the system dependency is still a .pc file in the private directory,
+#            every other method finds nothing (no compiler, no config tools, no cmake on PATH)
+DEP_NAMES: T.Dict[str, T.Tuple[str, ...]] = {
+    'plain': (DEP,),
+    'case': ('FooBar', 'Foo', 'fooBAR', 'FOO-2.0', 'libFoo_x', 'fOO'),
+    'factory': ('zlib', 'gpgme', 'libgcrypt', 'openssl', 'libcrypto', 'libssl', 'cups', 'sdl2', 'gl', 'libwmf',
+                'vulkan', 'gtest', 'gmock', 'pybind11', 'numpy'),
+}
+
+
+def dep_of(world: dict) -> str:
+    return world.get('dep') or DEP
+
+
+def sub_of(world: dict) -> str:
+    """Name of the fallback subproject (= of its wrap file).  wrap_form 'wrapname': the wrap file has no [provide]
+    entry for the dependency, it is named like the dependency ("A wrap file named `foo.wrap` implicitly provides the
+    dependency name `foo` even when the `[provide]` section is missing")."""
+    return dep_of(world) if world.get('wrap_form') == 'wrapname' else SUB
+
+
+def name_class(name: str) -> str:
+    for k, names in DEP_NAMES.items():
+        if name in names:
+            return k
+    return 'other'
+
+
+def assign_names(worlds: T.Sequence[dict], rng: random.Random) -> None:
+    """Give every world that has not fixed it the dependency's name: half plain, a quarter with upper-case characters,
+    a quarter served through several detection methods - exact shares, dealt at random (independent of the order in
+    which the factor loops produced the worlds).  A quarter of the worlds whose link is a [provide] entry relying on
+    the subproject's override use the implicit provide by the wrap file's own name instead, a third of them under
+    each name class."""
+    todo = [w for w in worlds if not w.get('dep')]
+    classes = [('plain', 'case', 'plain', 'factory')[i % 4] for i in range(len(todo))]
+    rng.shuffle(classes)
+    for w, cls in zip(todo, classes):
+        w['dep'] = rng.choice(DEP_NAMES[cls])
+    elig = [w for w in todo if w.get('provide') and w.get('sub_overrides') and not w.get('wrap_form')
+            and w.get('pre') in ('none', 'configured', 'failed_sub')]
+    picked = rng.sample(elig, len(elig) // 4)
+    for i, w in enumerate(picked):
+        w['wrap_form'] = 'wrapname'
+        w['dep'] = rng.choice(DEP_NAMES[('case', 'plain', 'factory')[i % 3]])
+
 
 # ------------------------------------------------------------------------------------------------
 # Part A
@@ -329,10 +386,11 @@ def _kwargs_text(lk: dict, world: T.Optional[dict] = None) -> str:
     elif lk['allow_fallback'] is not None:
         parts.append('allow_fallback: ' + ('true' if lk['allow_fallback'] else 'false'))
     if lk['explicit']:
+        sub = sub_of(world or {})
         if lk.get('eform') == 'single':
-            parts.append(f"fallback: '{SUB}'")   # the subproject must use meson.override_dependency()
+            parts.append(f"fallback: '{sub}'")   # the subproject must use meson.override_dependency()
         else:
-            parts.append(f"fallback: ['{SUB}', '{VAR}']")
+            parts.append(f"fallback: ['{sub}', '{VAR}']")
     return ''.join(', ' + p for p in parts)
 
 
@@ -340,6 +398,7 @@ def a_world_files(world: dict, root: str = '') -> T.Tuple[T.Dict[str, T.Union[st
     """-> (files relative to the case root, extra `meson setup` arguments, {}); `root` (absolute) is needed for
     the file:// URL of a world whose subproject must be downloaded."""
     files: T.Dict[str, T.Union[str, bytes]] = {}
+    DEP, SUB = dep_of(world), sub_of(world)      # shadow the module defaults: the names are factors of the world
     if world.get('pcpath') is not None:
         # the system dependency lives in two directories, in different versions; -Dpkg_config_path selects (ordered)
         files['pc/.keep'] = ''
@@ -417,7 +476,7 @@ def a_world_files(world: dict, root: str = '') -> T.Tuple[T.Dict[str, T.Union[st
         if world.get('sub_download'):
             wrap += (f'source_url = file://{root}/srv/{SUB}.tar\nsource_filename = {SUB}.tar\n'
                      f'source_hash = {sha256(blob)}\n')
-        if world['provide']:
+        if world['provide'] and wrap_form(world) != 'wrapname':
             prov = f'dependency_names = {DEP}' if wrap_form(world) == 'names' else f'{DEP} = {VAR}'
             wrap += f'\n[provide]\n{prov}\n'
         files[f'src/subprojects/{SUB}.wrap'] = wrap
@@ -569,6 +628,118 @@ def a_failing_sub_worlds(rng: random.Random, n: int) -> T.List[dict]:
             'side_overrides': True, 'seq': seq,
         })
     return out
+
+
+_EXCLUDES = {'1.0': ('>=2', '>1.0', '>=2.0', ('>=1.5', '<3')), '2.0': ('<2', '<2.0', MULTI, '<=1.9')}
+_ADMITS = {'1.0': (None, '<2', '<=2.0', ('>=1.0', '<2.0'), '>=1.0'), '2.0': (None, '>=2', '>1.0', '<=2.0', '!=1.0', '>=1.0')}
+
+
+def a_relookup_worlds(rng: random.Random, n: int) -> T.List[dict]:
+    """Lookup sequences in which an EARLIER lookup of the name was NOT satisfied (nothing is remembered for the name)
+    and a later lookup asks again with OTHER keyword arguments (version constraint, required, fallback, static): every
+    lookup is decided by its own arguments.  The system dependency is present in a version the first constraint
+    excludes and the later one admits; the first lookup has no usable fallback (no link / optional [provide] lookup /
+    allow_fallback: false / nofallback) or one whose version is excluded too.  The names are mostly ones meson
+    serves through several detection methods (pkg-config among them)."""
+    out = []
+    for i in range(n):
+        kind = ('none', 'provide-optional', 'explicit-later', 'provide-af-false', 'none', 'explicit-both-excluded',
+                'provide-optional', 'explicit-later')[i % 8]
+        system = ('1.0', '2.0')[(i // 8) % 2]
+        pver = rng.choice(['lo', 'hi'])
+        excl = list(_EXCLUDES[system])
+        if kind == 'explicit-both-excluded':
+            # the subproject's version must fail the first constraint as well
+            pver = 'lo' if system == '1.0' else 'hi'
+            excl = [c for c in excl if _excluded(SUB_VERSIONS[pver], c)]
+        c1 = rng.choice(excl)
+        c2 = rng.choice(_ADMITS[system])
+        provide = kind.startswith('provide')
+        sub = kind != 'none'
+        mk = lambda con, req, expl, af: {'constraint': con, 'required': req, 'allow_fallback': af, 'explicit': expl,  # noqa: E731
+                                         'eform': 'pair', 'afform': rng.choice(['kw', 'emptyfb']), 'static': None,
+                                         'nfm': rng.random() < 0.2}
+        first = mk(c1, False, kind == 'explicit-both-excluded', False if kind == 'provide-af-false' else None)
+        second = mk(c2, rng.random() < 0.5, kind in ('explicit-later', 'explicit-both-excluded'),
+                    rng.choice([None, True]) if provide else None)
+        if rng.random() < 0.2:
+            second['static'] = rng.choice([True, False])
+        seq = [first, second]
+        r = rng.random()
+        if r < 0.3:
+            seq.append(dict(second))                                  # A, B, B
+        elif r < 0.5:
+            seq = [first, dict(first), second]                        # A, A, B
+        elif r < 0.65:
+            seq.append(dict(first))                                   # A, B, A
+        cls = ('factory', 'factory', 'factory', 'case', 'plain')[i % 5]
+        out.append({'dep': rng.choice(DEP_NAMES[cls]), 'system': system,
+                    'wrap_mode': rng.choice(['default', 'default', 'default', 'nodownload', 'nofallback']), 'fff': 'none',
+                    'main_dl': 'shared', 'sub_dl_how': 'same', 'sub_dl_value': None,
+                    'provide': provide, 'sub_overrides': sub and rng.random() < 0.4, 'sub_download': False, 'sub': sub,
+                    'pre': 'none', 'pver': pver, 'optstyle': rng.choice(['D', 'long']), 'relookup': kind, 'seq': seq})
+    return out
+
+
+def _excluded(version: str, con: T.Any) -> bool:
+    """Tiny evaluator for the constraints of _EXCLUDES (generator-side only; the verdicts come from refdeps)."""
+    import re
+    cons = con if isinstance(con, (list, tuple)) else [con]
+    key = lambda v: tuple(int(x) for x in re.findall(r'\d+', v))  # noqa: E731
+    for c in cons:
+        m = re.fullmatch(r'(>=|<=|!=|>|<)(.+)', c)
+        assert m, c
+        a, b = key(version), key(m.group(2))
+        n = max(len(a), len(b))
+        a, b = a + (0,) * (n - len(a)), b + (0,) * (n - len(b))
+        if not {'>=': a >= b, '<=': a <= b, '>': a > b, '<': a < b, '!=': a != b}[m.group(1)]:
+            return True
+    return False
+
+
+# ---- programs provided by a wrap file ([provide] program_names) ----------------------------------------------------
+PROG_NAMES = ('c10prog', 'C10Prog', 'MyProg', 'myPROG-2', 'c10-tool.sh', 'TOOL')
+
+
+def p_worlds(rng: random.Random, n: int) -> T.List[dict]:
+    """Wrap-dependency-system-manual.md: "Programs can also be provided by wrap files, with the `program_names` key
+    ... `find_program('myprog')` will automatically fallback to use the subproject, assuming it uses
+    `meson.override_find_program('myprog')`" - the same spelling in the wrap file, find_program() and the override."""
+    out = []
+    for i in range(n):
+        out.append({'prog': PROG_NAMES[i % len(PROG_NAMES)], 'others': rng.choice([(), ('other',), ('Other', 'x')]),
+                    'position': rng.choice(['first', 'last']),
+                    'wrap_mode': ('default', 'forcefallback', 'nodownload', 'default')[i % 4],
+                    'fff': rng.choice(['none', 'none', 'sub']), 'with_deps': rng.random() < 0.5,
+                    'optstyle': rng.choice(['D', 'long'])})
+    return out
+
+
+def p_world_files(world: dict) -> T.Tuple[T.Dict[str, T.Union[str, bytes]], T.List[str]]:
+    name = world['prog']
+    names = list(world['others'])
+    names.insert(0 if world['position'] == 'first' else len(names), name)
+    wrap = f'[wrap-file]\ndirectory = {SUB}\n\n[provide]\n'
+    if world.get('with_deps'):
+        wrap += 'dependency_names = c10-some-dep\n'
+    wrap += 'program_names = ' + ', '.join(names) + '\n'
+    files: T.Dict[str, T.Union[str, bytes]] = {
+        'pc/.keep': '',
+        'src/meson.build': ("project('top', meson_version: '>=1.0')\n"
+                            f"p = find_program('{name}')\n"
+                            "message('P|@0@'.format(p.found()))\nmessage('END')\n"),
+        f'src/subprojects/{SUB}.wrap': wrap,
+        f'src/subprojects/{SUB}/meson.build': (f"project('{SUB}', meson_version: '>=1.0')\n"
+                                               f"meson.override_find_program('{name}', files('prog.sh'))\n"),
+        f'src/subprojects/{SUB}/prog.sh': b'#!/bin/sh\nexit 0\n',
+    }
+    args: T.List[str] = []
+    long = world.get('optstyle') == 'long'
+    if world['wrap_mode'] != 'default':
+        args.append(f'--wrap-mode={world["wrap_mode"]}' if long else f'-Dwrap_mode={world["wrap_mode"]}')
+    if world['fff'] != 'none':
+        args.append(f'--force-fallback-for={SUB}' if long else f'-Dforce_fallback_for={SUB}')
+    return files, args
 
 
 def classify_answer(found: str, type_name: str, version: str) -> T.Tuple[str, ...]:
